@@ -195,7 +195,11 @@ func c19ExprExec(c *mon.Case) {
 		c.Failf("evaluation modified the compiled program, a variable value or the function table", "expression=%q\nbefore %s\nafter  %s", src, before, after)
 		return
 	}
-	// concurrent: G goroutines share the calculator, each with its own collection
+	// concurrent: G goroutines share a calculator that has never evaluated anything (so lazily built state is
+	// built under contention), each with its own collection
+	calc = calculator.NewExpressionCalculator()
+	calc.SetExpression(src)
+	before = calcSnapshot(calc, colls)
 	h3.seed = seed
 	atomic.StoreInt32(&h3.enabled, 1)
 	var wg sync.WaitGroup
@@ -271,6 +275,10 @@ func c19TmplExec(c *mon.Case) {
 			}
 		}
 	}
+	// the concurrent phase runs on a template instance that has never rendered anything
+	t = mustache.NewMustacheTemplate()
+	t.SetTemplate(src)
+	before = mtoks(t.ResultTokens())
 	h3.seed = seed
 	atomic.StoreInt32(&h3.enabled, 1)
 	var wg sync.WaitGroup
@@ -353,7 +361,11 @@ func buildC19(cfg *mon.Config) []*mon.Sub {
 		Gen: func(emit func(string)) {
 			r := cfg.Rng("c19-expr")
 			g := &exprGen{r: r}
-			for i := 0; i < cfg.N(150, 4000); i++ {
+			// rare paths first: long argument lists, string->date conversions, error paths
+			directed := []string{"Sum(a, b, c, d, l, a, b, c, d, l, z)", "Max(a, b, c, d, l, z, a, b, c) - Min(a, b, c, d, l, z, a, b, c, d)", "Array(a, b, c, d, l, z, a, b, c, d, l, z)[a % 12]",
+				"DayOfWeek(ds)", "DayOfWeek(ds) * 10 + DayOfWeek(dt)", "If(DayOfWeek(ds) > 3, s, t) + ds", "dt > ds", "Contains(s + t, t)", "a / z", "arr[a]", "nosuch(a) + b", "a IN arr OR b NOT IN arr",
+				"s + a + x + f + p", "Sqrt(x) + Abs(d) + Round(f)", "TimeSpan(a, b, c) > TimeSpan(b)", "Date(2000 + a, b, c) < dt"}
+			for i := 0; i < cfg.N(150, 4000)+len(directed); i++ {
 				var t *model.Node
 				if r.Bool() {
 					t = g.typed(1+r.Intn(5), mon.Pick(r, []string{"int", "bool", "str", "num"}))
@@ -361,6 +373,9 @@ func buildC19(cfg *mon.Config) []*mon.Sub {
 					t = g.shape(1 + r.Intn(4))
 				}
 				src := printings(t, r.Next()%1000)[0]
+				if i < len(directed) {
+					src = directed[i]
+				}
 				var envs []string
 				for k := 0; k < 8; k++ {
 					e := stdEnv(r)
